@@ -1,0 +1,43 @@
+//go:build verif
+
+package interp
+
+import "sync"
+
+// VerifHook, when set, is called at every synchronisation point of the
+// arithmetic lexer/parser pair (build tag verif only; see
+// /verif/DESIGN.md).
+var VerifHook func(id int, pt string, n int)
+
+var verifIDs struct {
+	sync.Mutex
+	m map[interface{}]int
+	n int
+}
+
+// VerifReset forgets all lexer ids.
+func VerifReset() {
+	verifIDs.Lock()
+	verifIDs.m = nil
+	verifIDs.n = 0
+	verifIDs.Unlock()
+}
+
+func verifPoint(x interface{}, pt string, n int) {
+	hook := VerifHook
+	if hook == nil {
+		return
+	}
+	verifIDs.Lock()
+	if verifIDs.m == nil {
+		verifIDs.m = make(map[interface{}]int)
+	}
+	id, ok := verifIDs.m[x]
+	if !ok {
+		verifIDs.n++
+		id = verifIDs.n
+		verifIDs.m[x] = id
+	}
+	verifIDs.Unlock()
+	hook(id, pt, n)
+}
